@@ -91,7 +91,12 @@ func (c *pConfig) toml(outDir, sock string) string {
 	fmt.Fprintf(&sb, "[lepton]\nframe-output = %s\n\n", tomlString(sock))
 	fmt.Fprintf(&sb, "[thermal-recorder]\noutput-dir = %s\nmin-disk-space-mb = %d\nmin-secs = %d\nmax-secs = %d\npreview-secs = %d\nconstant-recorder = %v\n\n",
 		tomlString(outDir), c.MinDiskMB, c.MinSecs, c.MaxSecs, c.PreviewSecs, c.Constant)
-	fmt.Fprintf(&sb, "[thermal-throttler]\nactivate = %v\nbucket-size = %s\nmin-refill = %s\n\n", c.Throttle, tomlString(c.BucketSize), tomlString(c.MinRefill))
+	if c.MinRefill == "" {
+		// partial section: min-refill left to its documented default (10 minutes)
+		fmt.Fprintf(&sb, "[thermal-throttler]\nactivate = %v\nbucket-size = %s\n\n", c.Throttle, tomlString(c.BucketSize))
+	} else {
+		fmt.Fprintf(&sb, "[thermal-throttler]\nactivate = %v\nbucket-size = %s\nmin-refill = %s\n\n", c.Throttle, tomlString(c.BucketSize), tomlString(c.MinRefill))
+	}
 	fmt.Fprintf(&sb, "[windows]\nstart-recording = %s\nstop-recording = %s\n\n", tomlString(c.WindowStart), tomlString(c.WindowStop))
 	if c.HasLocation {
 		fmt.Fprintf(&sb, "[location]\nlatitude = %v\nlongitude = %v\naltitude = %v\naccuracy = %v\n", c.Lat, c.Long, c.Alt, c.Acc)
